@@ -309,6 +309,13 @@ func (a *mQ) AddCtrlAnyway(v int) string {
 }
 
 // WaitCloser is implemented by the queues that let a goroutine wait for the close.
+// IsCloseder: queues that can be asked whether they are closed.
+type IsCloseder interface{ IsClosed() bool }
+
+func (a *asyncQ) IsClosed() bool { return a.q.IsClosed() }
+func (a *muxQ) IsClosed() bool   { return a.q.IsClosed() }
+func (a *mQ) IsClosed() bool     { return a.q.IsClosed() }
+
 type WaitCloser interface {
 	WaitClose(ctx context.Context) error
 }
